@@ -16,11 +16,13 @@ impl InputFormatHandler {
         }
 
         // Try to parse as RON with detailed error information
-        ron::from_str::<Zerv>(trimmed_input).map_err(|e| {
-            ZervError::StdinError(format!(
-                "Invalid Zerv RON format: {e}. Expected format: (vars: {{...}}, schema: {{...}})"
-            ))
-        })
+        crate::version::zerv::zerv_ron_options()
+            .from_str::<Zerv>(trimmed_input)
+            .map_err(|e| {
+                ZervError::StdinError(format!(
+                    "Invalid Zerv RON format: {e}. Expected format: (vars: {{...}}, schema: {{...}})"
+                ))
+            })
     }
 }
 
